@@ -43,8 +43,10 @@ pub mod flate2 {
     /// flate2::write::GzEncoder<W>: an opaque compressor around W.  `write_rel` / `flush_rel` name what the real methods do.
     /// ASSUMED flate2 contract (C09 rests on it; cross-checked natively, bounded): fed `write`s (each accepted in full or
     /// as an honestly counted prefix by W) and `flush`es, then dropped, the encoder has handed W - through W's own
-    /// `write` / `flush`, retrying partial writes - exactly one well-formed gzip member of the accepted bytes; after a
-    /// successful `flush` (a sync flush followed by W::flush) W holds enough to decode everything accepted before it.
+    /// `write` / `flush`, retrying partial writes - exactly one well-formed gzip member of the accepted bytes; after TWO
+    /// consecutive successful `flush`es W holds enough to decode everything accepted before them.  (One is not enough
+    /// in flate2 1.0.33: `zio::Writer::flush` requests the sync flush before it makes room in its 32 KiB staging buffer,
+    /// so after a `write` that left the buffer full the request is lost - found by the native family, defect D13.)
     pub mod write {
         use vstd::prelude::*;
         #[verifier::external_body]
